@@ -343,7 +343,18 @@ impl<S: WebSocket, T: TimestampProvider> Task<S, T> {
             }
         }
         // This will flush the remaining frames already queued for sending as well
-        poll_fn(|cx| self.ws.lock().poll_close_unpin(cx)).await.ok();
+        if should_drain_source {
+            poll_fn(|cx| self.ws.lock().poll_close_unpin(cx)).await.ok();
+        } else {
+            // The connection failed. The transport may never be able to flush again
+            // (e.g. the peer stopped reading), so closing it is best-effort: try once
+            // and go on to release everything that is pending on our side.
+            poll_fn(|cx| {
+                let _ = self.ws.lock().poll_close_unpin(cx);
+                Poll::Ready(())
+            })
+            .await;
+        }
         // The above line only closes the `Sink`. Before we terminate connections,
         // we dispatch the remaining frames in the `Source` to our streams.
         // This waits for the peer to end the stream, so only do it if the connection
